@@ -145,7 +145,10 @@ def scaleXyz (fx fy fz : Rat) (o : V3) : State → Nat → State := mapRebind (s
 def rotateMap (r : M3) (o : V3) (p : V3) : V3 := o.add (r.apply (p.sub o))
 def rotate (r : M3) (o : V3) : State → Nat → State := mapRebind (rotateMap r o)
 
-def flatten (dim : Nat) : State → Nat → State := mapInPlace (fun p => p.set dim 0)
+/-- `flatten` (repaired): rebinds every vertex to a copy with component `dim` set to 0 (it used to assign into the stored vector:
+`legacyFlatten`, which also flattened every mesh sharing that vector) -/
+def flatten (dim : Nat) : State → Nat → State := mapRebind (fun p => p.set dim 0)
+def legacyFlatten (dim : Nat) : State → Nat → State := mapInPlace (fun p => p.set dim 0)
 
 /-- `mesh.vertices[v][c] = x` -/
 def editVertex (s : State) (i v c : Nat) (x : Rat) : State :=
